@@ -3,7 +3,7 @@ EXTENDS NoteLengths, TraceBase
 T_Empty == {}
 Verdict(r) == IF r.raised # "" THEN <<"raised">>
               ELSE IF ~(WellFormed(AbsEvents(r.in)) /\ NoOverlap(Notes(AbsEvents(r.in)))) THEN <<>>
-              ELSE Fails(NoteLengthClauses(r.in, r.values, r.noExtend, r.out) \o << <<"views-agree", ViewsAgree(r.out, r.outRel)>> >>)
+              ELSE Fails(NoteLengthClauses(r.in, r.values, r.noExtend, r.out) \o << <<"views-agree", SameContent(r.out, r.outRel)>> >>)
 TraceInit == /\ TraceStart /\ score = <<>> /\ values = <<>> /\ noExtend = FALSE /\ todo = {} /\ kept = {}
 TraceNext == HasLine /\ Advance /\ UNCHANGED vars
              /\ Emit([id |-> Line.id, fails |-> Verdict(Line),
